@@ -70,6 +70,10 @@ pub enum Stdin {
     File(String),
     /// a pipe pre-filled with these bytes (<= 64 KiB), then closed
     Pipe(Vec<u8>),
+    /// a pipe into which these pieces are written one at a time, each only once the child is blocked
+    /// in read(0) (seen in /proc/<pid>/syscall; after 2 s at the latest), then closed: what a person
+    /// typing or a slow producer looks like to the child
+    Pieces(Vec<Vec<u8>>),
 }
 
 #[derive(Clone, Debug)]
@@ -298,7 +302,7 @@ pub fn run(sb: &Sandbox, inv: &Invocation) -> Finished {
             }
             Err(e) => return Finished { status: Status::SpawnError(format!("stdin file: {}", e)), stdout: vec![], stderr: vec![], shim_log: vec![], max_rss_kib: 0, grew_before_eof: None },
         },
-        Stdin::Pipe(_) => {
+        Stdin::Pipe(_) | Stdin::Pieces(_) => {
             cmd.stdin(Stdio::piped());
         }
     }
@@ -382,6 +386,15 @@ pub fn run(sb: &Sandbox, inv: &Invocation) -> Finished {
             let _ = si.write_all(&data[..data.len().min(65536)]);
         }
     }
+    let mut pieces_left: std::collections::VecDeque<Vec<u8>> = match &inv.stdin {
+        Stdin::Pieces(p) => p.iter().cloned().collect(),
+        _ => Default::default(),
+    };
+    let mut pieces_pipe = if matches!(inv.stdin, Stdin::Pieces(_)) { child.stdin.take() } else { None };
+    if pieces_left.is_empty() {
+        pieces_pipe = None;
+    }
+    let mut last_piece_at = std::time::Instant::now();
     // drain stdout/stderr on helper threads (pipes are small), wait with a deadline
     let so = child.stdout.take();
     let se = child.stderr.take();
@@ -476,6 +489,29 @@ pub fn run(sb: &Sandbox, inv: &Invocation) -> Finished {
                     libc::close(keep);
                 }
                 fifo_fds = None;
+            }
+        }
+        if pieces_pipe.is_some() {
+            // x86-64: system call 0 is read; its first argument is the descriptor
+            // (asleep inside that call, and the pipe is empty: everything fed so far has been taken)
+            let in_read0 = std::fs::read_to_string(format!("/proc/{}/syscall", pid)).map(|t| t.starts_with("0 0x0 ")).unwrap_or(false);
+            let asleep = std::fs::read_to_string(format!("/proc/{}/stat", pid)).map(|t| t.rsplit(')').next().map(|r| r.trim_start().starts_with('S')).unwrap_or(false)).unwrap_or(false);
+            let mut pending: libc::c_int = 0;
+            if let Some(si) = pieces_pipe.as_ref() {
+                use std::os::unix::io::AsRawFd;
+                unsafe { libc::ioctl(si.as_raw_fd(), libc::FIONREAD, &mut pending) };
+            }
+            if (in_read0 && asleep && pending == 0) || last_piece_at.elapsed().as_millis() > 2000 {
+                if let Some(piece) = pieces_left.pop_front() {
+                    if let Some(si) = pieces_pipe.as_mut() {
+                        let _ = si.write_all(&piece[..piece.len().min(60000)]);
+                        let _ = si.flush();
+                    }
+                    last_piece_at = std::time::Instant::now();
+                }
+                if pieces_left.is_empty() {
+                    pieces_pipe = None; // closes the pipe: end of input
+                }
             }
         }
         if inv.sample_rss {
